@@ -47,12 +47,14 @@ def h_sat(H):
             before = data.snapshot()
             sat, mute = run_function(it, V.saturation, [data, mv], {"v_per_sec": SV(v), "fs": SV(fs), "proportion": SV(p), "mute_window_samples": SV(M)})
             tag = "vec" if per_channel else "scalar"
-            red = [r for r in it.ctx.reduce_log if r["name"] == "mean"]
+            # the channel fraction of a boolean mask is either its mean over the channel axis or its count of set channels (fraction = count / nc)
+            red = [r for r in it.ctx.reduce_log if r["name"] in ("mean", "count_nonzero")]
             ok = len(red) == 2 and all(r["axis"] == 0 and r["in_dtype"].kind == "b" for r in red)
-            it.ctx.oblige(f"flag.two_channel_fractions.{tag}", z3.BoolVal(ok), "post", "exactly two boolean masks are averaged over the channel axis")
+            it.ctx.oblige(f"flag.two_channel_fractions.{tag}", z3.BoolVal(ok), "post", "exactly two boolean masks are averaged (or counted) over the channel axis")
             if not ok:
                 return
             r1, r2 = red
+            over = lambda r, tt: (r["out"](tt) > p) if r["name"] == "mean" else (z3.ToReal(r["out"](tt)) > p * z3.ToReal(nc))    # noqa  "more than the proportion of channels"
             c, t = z3.Ints("c t")
             ab = lambda x: z3.If(x >= 0, x, -x)    # noqa
             it.ctx.oblige(f"flag.mask_amplitude.{tag}", z3.And(A.T(r1["in_shape"][0]) == nc, A.T(r1["in_shape"][1]) == ns,
@@ -62,7 +64,7 @@ def h_sat(H):
                           A.forall([c, t], lambda: z3.Implies(z3.And(c >= 0, c < nc, t >= 0, t < ns - 1), r2["input"]((c, t)) == (ab(data.read((c, t + 1)) - data.read((c, t))) / fs >= v)))), "post",
                           "second mask: slew into the next sample at or over the limit")
             it.ctx.oblige(f"flag.iff.{tag}", z3.And(z3.BoolVal(sat.ndim == 1 and sat.dtype.kind == "b"), A.T(sat.shape[0]) == ns,
-                          A.forall([t], lambda: z3.Implies(z3.And(t >= 0, t < ns), sat.read((t,)) == z3.Or(r1["out"](t) > p, z3.And(t < ns - 1, r2["out"](t) > p))))), "post",
+                          A.forall([t], lambda: z3.Implies(z3.And(t >= 0, t < ns), sat.read((t,)) == z3.Or(over(r1, t), z3.And(t < ns - 1, over(r2, t)))))), "post",
                           "flagged iff either fraction is more than the proportion (the last sample has no slew term)")
             # mute
             it.ctx.oblige(f"mute.shape.{tag}", z3.And(z3.BoolVal(mute.ndim == 1), A.T(mute.shape[0]) == ns), "post")
